@@ -89,3 +89,61 @@ operand = Contract(
     properties=("C01", "C02", "C20"), min_obligations=3, no_replay=True,
 )
 CONTRACTS.append(operand)
+
+
+# =================================================================================================
+# SignalAnalyzer.analyze — the bookkeeping that decides which named results get an anchor (C20):
+#   consumers(n)      = the nodes that read n
+#   aliases(n)        = the variable names bound to n;   output_aliases(n) = those of them the program never reads
+#   is_output(n)      <=> n is a labelled value nobody consumes, or n has an output alias
+# Evaluated on the REAL method over an enumerated box: a three-node program (input x, t = x * 3, u = t + 1) with names
+# x, total, alias, out and every subset of {x, total, alias, out} as the set of names the program reads: bounded.
+# =================================================================================================
+import itertools as _it2  # noqa: E402
+
+ANQ = "dsl_compiler/src/layout/signal_analyzer.py::SignalAnalyzer.analyze"
+
+
+def _analyze_post(a, res):
+    me = a.self
+    names_of = {}
+    for name, ref in me.signal_refs.items():
+        names_of.setdefault(ref.source_id, set()).add(name)
+    readers = {"x": {"t"}, "t": {"u"}, "u": set()}
+    for nid in ("x", "t", "u"):
+        e = res.get(nid)
+        if e is None:
+            return False
+        if set(e.consumers) != readers[nid]:
+            return False
+        want_alias = {n for n in names_of.get(nid, set()) if n not in me.referenced_signal_names}
+        if set(e.output_aliases) != want_alias:
+            return False
+        labelled = bool(e.debug_label) and e.debug_label != nid
+        want_out = (labelled and not readers[nid]) or bool(want_alias)
+        if bool(e.debug_metadata.get("is_output")) != want_out:
+            return False
+    return True
+
+
+analyze_contract = Contract(qualname=ANQ, params={"self": ty.TOpaque("analyzer"), "ir_operations": ty.TOpaque("ops")},
+                            ensures=[("consumers, output aliases (declared but never read) and the output mark are exactly what the program's names and reads say", _analyze_post)],
+                            verify=False, properties=("C20",), note="evaluated on the real method over an enumerated box (bounded stand-in)")
+CONTRACTS.append(analyze_contract)
+
+
+def analyze_arg_sets():
+    from dsl_compiler.src.common.diagnostics import ProgramDiagnostics
+    from dsl_compiler.src.ir import nodes as N
+    from dsl_compiler.src.layout.signal_analyzer import SignalAnalyzer
+    out = []
+    names = ["x", "total", "alias", "out"]
+    for k in range(len(names) + 1):
+        for read in _it2.combinations(names, k):
+            x = N.IRConst("x", "signal-A"); x.value = 6; x.debug_label = "x"; x.debug_metadata["user_declared"] = True
+            t = N.IRArith("t", "signal-A"); t.op = "*"; t.left = N.SignalRef("signal-A", "x"); t.right = 3; t.debug_label = "total"
+            u = N.IRArith("u", "signal-A"); u.op = "+"; u.left = N.SignalRef("signal-A", "t"); u.right = 1; u.debug_label = "out"
+            refs = {"x": N.SignalRef("signal-A", "x"), "total": N.SignalRef("signal-A", "t"), "alias": N.SignalRef("signal-A", "t"), "out": N.SignalRef("signal-A", "u")}
+            an = SignalAnalyzer(ProgramDiagnostics(log_level="error"), {}, signal_refs=refs, referenced_signal_names=set(read))
+            out.append({"self": an, "ir_operations": [x, t, u]})
+    return out
